@@ -2,7 +2,7 @@
 from .. import rotcheck
 
 LEVEL = "exploration"
-PROFILE = {"p_day": 0.06, "p_restart": 0.07, "p_foreign": 0.01, "big_p": 0.08}
+PROFILE = {"p_day": 0.06, "p_restart": 0.07, "p_foreign": 0.01, "big_p": 0.08, "marathon_p": 0.012}
 
 
 def run(ctx):
